@@ -108,6 +108,19 @@ func init() {
 				}
 			}
 			x.check(inval, k+" invalidate≺reset", x.pos(reset), "the snapshot cache is invalidated before the log is reset", "the log is reset without first invalidating the snapshot cache (the cache keeps serving the old epoch)")
+			// … and after the rebuild, which itself populates the cache
+			buildObj := x.P.FnObj("server/packs.BuildInternalDocForServerSeq")
+			repop := ""
+			for _, c := range prog.CallsIn(fn) {
+				if o := prog.CallObj(c); o != nil && o.Name() == "Remove" && recvOf(c) != nil && strings.Contains(recvOf(c).Type().String(), "cache.LRU[") {
+					for _, b := range callsToIn(fn, buildObj) {
+						if prog.MayPrecede(c, b) {
+							repop = x.pos(b)
+						}
+					}
+				}
+			}
+			x.check(repop == "", k+" rebuild≺invalidate", x.pos(reset), "nothing re-populates the cache between its invalidation and the reset", "the document is rebuilt (which stores it in the snapshot cache) after the cache was invalidated, at "+repop+": the pre-compaction document survives the compaction in the cache")
 			// arguments
 			docSS := x.P.Field(dbPkg + ".DocInfo.ServerSeq")
 			build := x.P.FnObj("server/packs.BuildInternalDocForServerSeq")
